@@ -773,11 +773,9 @@ class Condition(ConditionLike):
             spec_val = [_arg_to_json_like(i, cast_types) for i in self.callable.args]
 
         elif len(func_args["VAR_KEYWORD"]) == 1 and not func_args["VAR_POSITIONAL"]:
-            # zero or more pos-or-kw args and a var-kw arg, spec val is a dict of kwargs:
-            spec_val = {
-                k: _arg_to_json_like(v, cast_types)
-                for k, v in self.callable.kwargs.items()
-            }
+            # zero or more pos-or-kw args and a var-kw arg, spec val is a dict of kwargs
+            # (escaped like any other mapping that `from_spec` could take for a path):
+            spec_val = _arg_to_json_like(dict(self.callable.kwargs), cast_types)
 
         else:
             raise NotImplementedError(
